@@ -121,3 +121,12 @@ Example ex_arakawa_wind : wind_index ex_arakawa 0 7 = Some (0, [1; 3]) /\
                           ravel_index ex_arakawa (0, [1; 4]) = None /\
                           ravel_index ex_arakawa (1, [1; 4]) = Some 9.
 Proof. vm_compute. repeat split. Qed.
+
+(* the indexes wind_index hands to pack_index are the row-major unravelling of n *)
+Lemma wind_is_unravel g k s n idx : lookup k (shapes g) = Some s -> wind_index g k n = Some idx ->
+  0 <= n < prod s /\ idx = pack (fl g) k (unravel_aux s n).
+Proof.
+  intros L. unfold wind_index, unravel. rewrite L.
+  destruct ((0 <=? n) && (n <? prod s)) eqn:E; [|discriminate]. cbn [option_map]. intros [= <-].
+  apply andb_true_iff in E as [E1 E2]. apply Z.leb_le in E1. apply Z.ltb_lt in E2. auto.
+Qed.
